@@ -12,8 +12,31 @@ warnings.simplefilter("ignore")
 sys.setrecursionlimit(10000)
 
 
+class CaseTimeout(BaseException):
+    pass
+
+
+def _limits():
+    """a changed library may recurse or allocate without bound on some input: cap memory, and time per case, so
+    that such a case becomes an answer ("Timeout" / "MemoryError") instead of taking the machine down"""
+    import resource
+    import signal
+    gb = int(os.environ.get("VERIF_MEM_GB", "8"))
+    try:
+        resource.setrlimit(resource.RLIMIT_AS, (gb << 30, gb << 30))
+    except (ValueError, OSError):
+        pass
+
+    def on_alarm(signum, frame):
+        raise CaseTimeout()
+    signal.signal(signal.SIGALRM, on_alarm)
+    return signal
+
+
 def main():
     pid, cin, cout = sys.argv[1:4]
+    signal = _limits()
+    per_case = float(os.environ.get("VERIF_CASE_TIMEOUT", "90"))
     import dyce
     repo = os.environ.get("DYCE_REPO", "/repo")
     assert os.path.realpath(dyce.__file__).startswith(os.path.realpath(repo) + os.sep), dyce.__file__
@@ -23,7 +46,14 @@ def main():
     out = []
     for c in cases:
         try:
-            out.append(mod.impl_run(c))
+            signal.setitimer(signal.ITIMER_REAL, per_case)
+            try:
+                res = mod.impl_run(c)
+            finally:
+                signal.setitimer(signal.ITIMER_REAL, 0)
+            out.append(res)
+        except CaseTimeout:
+            out.append({"exc": "Timeout", "msg": f"no answer within {per_case} s"})
         except BaseException as e:  # noqa
             name = type(e).__name__
             if "Beartype" in name:
